@@ -333,6 +333,8 @@ def _emit_type(asm, out, kind, kv, maps, drops, adds=()):
         out.append(pre)
     if keep:
         # Verus allows `==` in executable code on types that are PartialEq + Eq + Structural
+        if kv.get('eq') and 'PartialEq' in keep and 'Eq' not in keep:
+            keep = keep + ['Eq']   # the stand-in may be stricter than the original (needed for Verus' executable `==`)
         out.append('#[derive(%s)]' % ', '.join(keep + (['Structural'] if 'Eq' in keep and 'PartialEq' in keep else [])))
     if dropped_derives:
         asm.dropped.append('%s: derive(%s) dropped' % (kv['name'], ', '.join(dropped_derives)))
@@ -607,7 +609,7 @@ def _emit_fn_stub(asm, out, unit, kv, block, default_props, reason):
         o.fnkey = fname
         asm.obligations.append(o)
     for t in block:
-        m_ = re.match(r'assert\s+@([\w.]+)\s+(?:before_stmt|after_stmt)\s+"(?:[^"\\]|\\.)*"\s+(.*)', t)
+        m_ = re.match(r'assert\s+@([\w.]+)\s+(?:before_stmt|after_stmt)\s+"(?:[^"\\]|\\.)*"\s+(.*)', t) or re.match(r'assert\s+@([\w.]+)\s+at\s+body\.end\s+(.*)', t)
         if m_:
             oa = Obligation('%s/%s/assert@%s' % (unit, fname, m_.group(1)), 'assert', props, fname, m_.group(2))
             oa.forced = ('undecided', reason)
@@ -762,7 +764,12 @@ def _emit_fn(asm, out, unit, kv, block, default_props):
         elif t.startswith('assert '):
             m = re.match(r'assert\s+@([\w.]+)\s+(before_stmt|after_stmt)\s+"((?:[^"\\]|\\.)*)"\s+(.*)', t)
             if not m:
-                raise ExtractError("bad assert directive in %s: %s" % (fname, t))
+                # `assert @name at body.end <expr>`: a named obligation at the end of a unit-returning body
+                m3 = re.match(r'assert\s+@([\w.]+)\s+at\s+body\.end\s+(.*)', t)
+                if not m3:
+                    raise ExtractError("bad assert directive in %s: %s" % (fname, t))
+                named_asserts.append((m3.group(1), 'body.end', '', m3.group(2)))
+                continue
             named_asserts.append((m.group(1), m.group(2), m.group(3).replace('\\"', '"'), m.group(4)))
         elif t.startswith('before_stmt ') or t.startswith('after_stmt '):
             m = re.match(r'(before_stmt|after_stmt)\s+"((?:[^"\\]|\\.)*)"\s+(.*)', t)
@@ -869,6 +876,9 @@ def _emit_fn(asm, out, unit, kv, block, default_props):
             else:
                 inserts.append((ob + 1 if m.group(2) == 'start' else cb, '\n            ' + text + '\n'))
     for (aname, where, anchor, expr) in named_asserts:
+        if where == 'body.end':
+            inserts.append((len(body) - 1, ('named_assert', aname, expr)))
+            continue
         befores.append((where, anchor, ('named_assert', aname, expr)))
     for ba, anchor, text in befores:
         if ba in ('before_stmt', 'after_stmt'):
